@@ -754,8 +754,9 @@ func configureCustomTags(spec *model.TracingSpec, hcmTracing *hcm.HttpConnection
 
 	// looping over customTags, a map, results in the returned value
 	// being non-deterministic when multiple tags were defined; sort by the tag name
-	// to rectify this
-	sort.Slice(tags, func(i, j int) bool {
+	// to rectify this. The sort must be stable: a user tag may carry the name of a built-in one, and the
+	// built-in tags always come first in the list.
+	sort.SliceStable(tags, func(i, j int) bool {
 		return tags[i].Tag < tags[j].Tag
 	})
 
